@@ -1106,3 +1106,67 @@ def _out8_pass(u, fam, famnames, leaves_dirty, R):
                  'bytes written through an earlier ensure() result are not yet covered by ->offset here: if the buffer has to be '
                  'copied to grow, they are lost', key='dirty:%s' % expr_str(c)[:50])
     return n
+
+
+# ---- PRT1: the printer does not refuse what the parser accepts (nesting depth) ---------------------------------------------------
+
+def prt1(units, R):
+    """The parser refuses a container when `depth >= CJSON_NESTING_LIMIT` *before* entering it, so it builds trees with up to LIMIT
+    nested containers and scalars inside the innermost one.  A depth test in the printing family may therefore only refuse where
+    the parser would: in a function that goes on to increment the depth (a container printer), with the same or a weaker bound.
+    A refusal by depth anywhere else (print_value, the leaf printers) rejects values the parser accepted.  The tree has no such
+    test today; the rule is armed by a fixture."""
+    u = units['cJSON.c']
+    # the parser's bound
+    limit = None
+    for pf in ('parse_array', 'parse_object'):
+        if pf not in u.functions:
+            continue
+        for b in u.functions[pf].cfg().nodes:
+            if b.kind != 'branch':
+                continue
+            p = cmp_parts(b.expr)
+            if p is not None and is_mem(p[0], 'depth') and p[1] in ('>=', '>'):
+                v = p[2] if p[1] == '>=' else p[2] + 1
+                limit = v if limit is None else min(limit, v)
+    if limit is None:
+        raise AnalysisBroken('PRT1: the nesting gate of the parser was not found')
+    n = 0
+    for fn in print_family(u):
+        cfg = fn.cfg()
+        incs = set()
+        for m in cfg.nodes:
+            for ev in node_effects(m):
+                if ev.kind == 'incdec' and is_mem(ev.lhs, 'depth') and ev.delta > 0:
+                    incs.add(m.id)
+                if ev.kind == 'store' and is_mem(ev.lhs, 'depth') and ev.node['op'] == '+=':
+                    incs.add(m.id)
+        for b in cfg.nodes:
+            if b.kind != 'branch':
+                continue
+            p = cmp_parts(b.expr)
+            if p is None or not is_mem(p[0], 'depth') or p[1] not in ('>=', '>', '<', '<=', '==', '!='):
+                continue
+            # the edge on which the function can only fail
+            for (y, lab) in cfg.succ[b.id]:
+                if lab is None or lab[0] not in ('T', 'F'):
+                    continue
+                reach = cfg.reachable(y) | {y}
+                rets = [r for r in cfg.returns() if r.id in reach]
+                only_fails = bool(rets) and all(r.expr is not None and const_val(r.expr) == 0 for r in rets)
+                if not only_fails:
+                    continue
+                n += 1
+                op = p[1] if lab[0] == 'T' else {'>=': '<', '>': '<=', '<': '>=', '<=': '>', '==': '!=', '!=': '=='}[p[1]]
+                # smallest depth refused
+                first = p[2] if op == '>=' else (p[2] + 1 if op == '>' else 0)
+                container = any(i in cfg.reachable(b.id) for i in incs)
+                ok = container and op in ('>=', '>') and first >= limit
+                R.ob('PRT1', fn, b.expr, 'a depth test in %s refuses only what the parser refuses' % fn.name, ok,
+                     'container printer, refuses from depth %d on (parser: %d)' % (first, limit) if ok else
+                     ('%s refuses at depth %s although the parser builds trees with values at depth %d%s' % (
+                         fn.name, first if op in ('>=', '>') else 'values selected by %s' % expr_str(b.expr)[:30], limit,
+                         '' if container else ' (scalars inside %d nested containers are at that depth and are printed by this function)' % limit)),
+                     key='depthgate:%s' % fn.name)
+    R.ob('PRT1', None, None, 'depth tests in the printing family examined', True, '%d refusing edges (parser bound %d)' % (n, limit),
+         key='census', file='cJSON.c', line=0)
